@@ -99,6 +99,19 @@ func (s *subsetter) SubsetCMap(c cmap.Subtable) cmap.Subtable {
 	}
 
 	switch c := c.(type) {
+	case *cmap.Format0:
+		res := &cmap.Format0{}
+		for code, oldGid := range c.Data {
+			if oldGid == 0 {
+				continue
+			}
+			// a byte encoding table can only refer to the first 256 glyphs
+			newGid, ok := s.newGid[glyph.ID(oldGid)]
+			if ok && newGid < 256 {
+				res.Data[code] = byte(newGid)
+			}
+		}
+		return res
 	case cmap.Format4:
 		res := cmap.Format4{}
 		for key, oldGid := range c {
